@@ -144,7 +144,9 @@ def register(add, NOTE):
         "any kinds in any registration order (parameters and attachment options of any type) the written options are accepted and give the "
         "same loads grouped by kind (a permutation of the model's loads), each with its own attachments, and writing again gives the same "
         "options. (4) sources — every source list main can produce (default source, single source of 1 V, several sources) is reproduced; the "
-        "pre-repair writer is refuted. Tie: stages `cmd`, `objs`, `loads`, `srcs` compare the model readers / writers with the real main / "
+        "pre-repair writer is refuted. (5) media — every media structure the program can hold (any number of media, a coordinate given to the "
+        "outermost one, either boundary, radial screen) is read back from its written options and written again identically; the writer before "
+        "repair 9469538 is refuted. Tie: stages `cmd`, `objs`, `loads`, `srcs`, `media` compare the model readers / writers with the real main / "
         "as_cmdline on generated command lines. PARTIAL: tapering, transformations, media and the numeric parameters are not modelled; the "
         "oracle runs write -> main -> write on the real code and compares descriptions, feed impedance and the second writing.",
         "Rocq proof (attachment writer/reader by counting; object tags by sorting / permutation invariance; load numbering by induction over the written list; sources by cases) + vm_compute correspondence + write/read/write oracle on the real code",
